@@ -143,7 +143,7 @@ func genIntField(rt *rapid.T, label, name string, env *fillEnv) int64 {
 	lname := strings.ToLower(name)
 	r := rapid.IntRange(0, 9).Draw(rt, label+"-kind")
 	switch lname {
-	case "start":
+	case "start", "time":
 		if r < 7 && len(env.Starts) > 0 {
 			return env.Starts[rapid.IntRange(0, len(env.Starts)-1).Draw(rt, label)]
 		}
